@@ -235,8 +235,12 @@ def strategy(tier):
         n = len(ts)
         # the grammar allows juxtaposition *or* operators within one sequence, not a mixture
         juxta = draw(st.booleans())
-        return {"k": "spelling", "terms": ts, "sep": [draw(BLANK if juxta else SEP) for _ in range(n)], "expf": [draw(EXPF) for _ in range(n)],
+        case = {"k": "spelling", "terms": ts, "sep": [draw(BLANK if juxta else SEP) for _ in range(n)], "expf": [draw(EXPF) for _ in range(n)],
                 "namef": [draw(NAMEF) for _ in range(n)], "ratio": draw(st.booleans()), "pad": draw(st.sampled_from(["", " ", "  "]))}
+        if draw(convgen.INT10) < 2:
+            case["ratio"] = False
+            case["zero"] = [draw(U), draw(st.sampled_from(["sup", "caret"]))]
+        return case
 
     return mix()
 
@@ -451,6 +455,12 @@ def _spell(c, case):
         if i:
             s += case["sep"][i]
         s += t + ex(e, f)
+    zero = case.get("zero")
+    if isinstance(zero, list) and len(zero) == 2 and zero[0] in c.all_units and parts:
+        # a further term raised to the power zero (x^0, x⁰): it is one, and changes nothing
+        zu = c.all_units[zero[0]]
+        if zu.symbol and LEXABLE.match(zu.symbol) and predict(c, zu.symbol) is not None and predict(c, zu.symbol)[1] is zu:
+            s += case["sep"][0] + zu.symbol + ("⁰" if zero[1] == "sup" else "^0")
     return s + pad
 
 
